@@ -344,6 +344,12 @@ def PfamX.quals (p : PfamX) : Quals :=
     [("description", [p.description]), ("db_xref", p.fullId :: sortStrs (g.map (·.1))), ("gene_ontologies", (sortGo g).map goStr)]
   | none => [("description", [p.description]), ("db_xref", [p.fullId])]
 
+/-- the `db_xref` values `PFAMDomain.from_biopython` leaves among the leftovers of a written domain: the sorted GO ids -/
+def PfamX.leftXref (p : PfamX) : List String :=
+  match p.go with
+  | some g => sortStrs (g.map (·.1))
+  | none => []
+
 /-- `text.partition(": ")` when the separator is there -/
 def partitionColonSpace : List Char → Option (List Char × List Char)
   | ':' :: ' ' :: rest => some ([], rest)
@@ -406,11 +412,14 @@ inductive DomKind where
   | asDomain
   /-- `CDSMotif` with a tool (not `ExternalCDSMotif`, not `Prepeptide`); feature type `CDS_motif` -/
   | motif
+  /-- the `Domain` part of a `PFAMDomain` (its own qualifiers are `PfamX`); feature type `PFAM_domain` -/
+  | pfam
 deriving DecidableEq, Repr, Inhabited
 
 def DomKind.type : DomKind → String
   | .asDomain => "aSDomain"
   | .motif => "CDS_motif"
+  | .pfam => "PFAM_domain"
 
 /-- the state of such a feature; `score` is the text `str(float)`, `evalue` the text `f"{x:.2E}"` (three
     significant digits: what the value is *after* its first round trip) -/
@@ -523,6 +532,11 @@ def Dom.fromBio (kind : DomKind) (b : Bio) : E Dom := do
     | .motif => do
       let t ← firstOr l "aSTool"
       if t.isEmpty then throw "unsupported" else pure t
+    | .pfam =>
+      match Q.get? l "aSTool" with
+      | none => throw "KeyError"
+      | some [] => throw "IndexError"
+      | some (t :: _) => pure t
   let l := Q.erase l "aSTool"
   let (ps, pe) ← protLoc l
   let tag0 ← firstOr l "locus_tag"
@@ -530,7 +544,7 @@ def Dom.fromBio (kind : DomKind) (b : Bio) : E Dom := do
   let tag := noSpaces (if tag0.isEmpty then "(unknown)" else tag0)
   -- an empty locus tag: `raise ValueError` in AntismashDomain.from_biopython, `assert locus_tag` in CDSMotif.from_biopython;
   -- an empty tool: refused by `AntismashFeature.__init__`
-  if tag.isEmpty then throw (match kind with | .asDomain => "value-error" | .motif => "assertion")
+  if tag.isEmpty then throw (match kind with | .asDomain => "value-error" | .motif => "assertion" | .pfam => "assertion")
   else if tool.isEmpty then throw "value-error"
   else
     -- Domain.from_biopython
@@ -561,5 +575,37 @@ def Dom.fromBio (kind : DomKind) (b : Bio) : E Dom := do
       if kind == .asDomain && (domainId.getD "").isEmpty then throw "assertion"
       else pure ⟨feat, tool, tag, ps, pe, orNone domain, asf, domainId, orNone database, orNone detection,
                  (orNone label).map noSpaces, evalue, score, translation⟩
+
+/-! ### `PFAMDomain` as a feature: `PfamX` on top of the `Domain` layers -/
+
+structure Pfam where
+  dom : Dom
+  x : PfamX
+deriving DecidableEq, Repr, Inhabited
+
+/-- the `mine` of `AntismashFeature.to_biopython` before the subclasses' qualifiers are merged in -/
+def Dom.mineAF (d : Dom) : Quals :=
+  let q := setOpt [] "label" d.label
+  let q := setSome q "score" d.score
+  let q := setSome q "evalue" d.evalue
+  let q := setOpt q "locus_tag" (some d.locusTag)
+  let q := setOpt q "translation" (some d.translation)
+  let q := setOpt q "database" d.database
+  let q := setOpt q "detection" d.detection
+  let q := if d.feat.byAS then setOpt q "domain_id" d.domainId else q
+  setOpt q "aSTool" (some d.tool)
+
+/-- `PFAMDomain.to_biopython`: its three qualifiers go through `Domain.to_biopython(mine)` and
+    `AntismashFeature.to_biopython(mine)` (each `mine.update(qualifiers)`) -/
+def Pfam.mine (p : Pfam) : Quals := Q.update p.dom.mineAF (Q.update p.dom.mineDomain p.x.quals)
+def Pfam.toBio (p : Pfam) : E Bio := p.dom.feat.toBio p.mine
+
+/-- `PFAMDomain.from_biopython`: description, the first `db_xref` entry (removed from the list in place, the others
+    stay among the leftovers), gene ontology terms, then the `Domain` layers -/
+def Pfam.fromBio (b : Bio) : E Pfam := do
+  let (x, others) ← PfamX.read b.quals
+  let l := Q.set (Q.erase (Q.erase b.quals "description") "gene_ontologies") "db_xref" others
+  let d ← Dom.fromBio .pfam ⟨b.loc, b.type, l⟩
+  pure ⟨d, x⟩
 
 end ASV.Serial
